@@ -690,3 +690,59 @@ Lemma nofire_witness :
   /\ o_status (snd (fst (nstep s (OAddTrack Video (w_enc 2)) []))) = "ok"
   /\ snd (nstep s (OAddTrack Video (w_enc 2)) []) = [].
 Proof. vm_compute. repeat split; congruence. Qed.
+
+(* ---------- a change made during an exchange: the re-check on reaching stable ---------- *)
+
+Lemma stable_transition_rechecks : forall s o sched s' out fs,
+  nstep s o sched = (s', out, fs) ->
+  fx_to_stable (snd (step (n_pc s) o)) = true ->
+  p_closed (n_pc s') = false -> p_sig (n_pc s') = Stable ->
+  (check_negotiation_needed (n_pc s') = Ok true -> fs = [the_firing] /\ n_flag s' = true)
+  /\ (check_negotiation_needed (n_pc s') = Ok false -> fs = [] /\ n_flag s' = false).
+Proof.
+  intros s o sched s' out fs H Hst Hc Hs.
+  pose proof (nstep_pc s o sched) as Hp. rewrite H in Hp. cbn in Hp.
+  unfold nstep in H. destruct (step (n_pc s) o) as [[p' out'] fx] eqn:E. cbn in Hst, Hp. subst p'.
+  rewrite Hst, drain_spec in H.
+  assert (Htrig : fx_triggers fx <> 0).
+  { (* only setDescription reports to_stable, always with one trigger *)
+    destruct o; cbn [step] in E;
+      try (unfold add_track, add_tcv_kind, add_tcv_track, add_encoding, remove_track, replace_track,
+                  create_data_channel, close_pc in E;
+           repeat match type of E with
+                  | (if ?c then _ else _) = _ => destruct c
+                  | (match ?c with _ => _ end) = _ => destruct c
+                  end; inversion E; subst; discriminate).
+    - unfold create_offer in E. destruct (p_closed (n_pc s)); [inversion E; subst; discriminate|].
+      destruct (assign_mids _ _) as [g l].
+      repeat match type of E with
+             | (if ?c then _ else _) = _ => destruct c
+             | (match ?c with _ => _ end) = _ => destruct c
+             end; inversion E; subst; discriminate.
+    - unfold create_answer in E.
+      repeat match type of E with
+             | (if ?c then _ else _) = _ => destruct c
+             | (match ?c with _ => _ end) = _ => destruct c
+             end; inversion E; subst; discriminate.
+    - unfold set_local in E. destruct (p_closed (n_pc s)); [inversion E; subst; discriminate|].
+      destruct ty.
+      + repeat match type of E with
+               | (if ?c then _ else _) = _ => destruct c
+               | (match ?c with _ => _ end) = _ => destruct c
+               end; inversion E; subst; discriminate.
+      + destruct (p_last_answer (n_pc s)); [|inversion E; subst; discriminate].
+        destruct (sig_eqb (p_sig (n_pc s)) HaveRemoteOffer); [|inversion E; subst; discriminate].
+        destruct (match p_pend_remote (n_pc s) with Some _ => start_rtp_senders _ | None => _ end).
+        inversion E; subst. cbn. discriminate.
+    - unfold set_remote in E. destruct (p_closed (n_pc s)); [inversion E; subst; discriminate|].
+      destruct ty.
+      + destruct (sig_eqb (p_sig (n_pc s)) Stable); [|inversion E; subst; discriminate].
+        destruct (remote_offer_loop secs _ _ 0) as [[l1 added] ok]. inversion E; subst. discriminate.
+      + destruct (sig_eqb (p_sig (n_pc s)) HaveLocalOffer); [|inversion E; subst; discriminate].
+        match type of E with context [start_rtp_senders ?x] => destruct (start_rtp_senders x) end.
+        destruct secs; cbn in E; inversion E; subst; cbn; discriminate. }
+  destruct (fx_triggers fx); [congruence|].
+  unfold op1, nn_op in H. cbn [n_pc n_flag n_panicked] in H.
+  rewrite Hc, Hs in H. cbn in H.
+  split; intro Hk; rewrite Hk in H; inversion H; subst; cbn; rewrite ?Hs, ?Hc; auto.
+Qed.
